@@ -11,7 +11,7 @@ Open Scope N_scope.
 
 (* ------------------------------------------------------------------ well-formed SAX trees *)
 Definition decl_fine (d : option str * str) : Prop :=
-  attr_inner_value c_quot (snd d) = Some (snd d) /\ decl_ok d = true /\ fst d <> Some [].
+  attr_inner_value c_quot (sax_escape_uri (snd d)) = Some (snd d) /\ decl_ok d = true /\ fst d <> Some [].
 
 Definition name_fine (e : env) (c : nctx) (q : qname) : Prop :=
   exists lex, n_qname c q = Some lex /\ elem_name e lex = Some q.
@@ -438,59 +438,20 @@ Proof.
 Qed.
 
 (* declarations *)
-Lemma expand_plain_all lit s :
-  forallb (fun c => is_xml_char c && negb (c =? c_amp) && negb (c =? c_lt)) s = true ->
-  expand lit None s = Some (map lit s).
+Lemma uri_ok_chars u : uri_ok u = true -> forallb is_xml_char u = true.
 Proof.
-  induction s as [|c s IH]; intros H; [reflexivity|].
-  cbn [forallb] in H. apply andb_true_iff in H as [Hc Hs].
-  apply andb_true_iff in Hc as [Hc H2]. apply andb_true_iff in Hc as [H0 H1].
-  apply negb_true_iff in H1, H2.
-  cbn [expand map]. rewrite H1, H2, H0, (IH Hs). reflexivity.
-Qed.
-
-Lemma uri_char_ok_facts c :
-  uri_char_ok c = true ->
-  is_xml_char c = true /\ c <> c_amp /\ c <> c_lt /\ c <> c_quot /\ c <> 9 /\ c <> 10 /\ c <> 13.
-Proof.
-  unfold uri_char_ok. intros H. apply andb_true_iff in H as [H0 H]. apply negb_true_iff in H.
-  unfold mem in H. cbn [existsb] in H. repeat (apply orb_false_iff in H as [? H]).
-  repeat match goal with E : (_ =? _) = false |- _ => apply N.eqb_neq in E end.
-  repeat split; try assumption; intros ->; congruence.
-Qed.
-
-Lemma uri_value_plain u :
-  forallb uri_char_ok u = true -> attr_inner_value c_quot u = Some u.
-Proof.
-  intros H. unfold attr_inner_value.
-  assert (Hq : mem c_quot u = false).
-  { induction u as [|c u IH]; [reflexivity|]. cbn [forallb] in H. apply andb_true_iff in H as [Hc Hu].
-    unfold mem. cbn [existsb]. fold (mem c_quot u). rewrite (IH Hu), orb_false_r.
-    apply uri_char_ok_facts in Hc. apply N.eqb_neq. intros E. destruct Hc as [_ [_ [_ [Hc _]]]]. congruence. }
-  rewrite Hq.
-  assert (Hcr : mem 13 u = false).
-  { clear Hq. induction u as [|c u IH]; [reflexivity|]. cbn [forallb] in H. apply andb_true_iff in H as [Hc Hu].
-    unfold mem. cbn [existsb]. fold (mem 13 u). rewrite (IH Hu), orb_false_r.
-    apply uri_char_ok_facts in Hc. apply N.eqb_neq. intros E. destruct Hc as [_ [_ [_ [_ [_ [_ Hc]]]]]]. congruence. }
-  rewrite norm_eol_no_cr by exact Hcr.
-  rewrite expand_plain_all.
-  - f_equal. clear Hq Hcr. induction u as [|c u IH]; [reflexivity|]. cbn [forallb] in H.
-    apply andb_true_iff in H as [Hc Hu]. cbn [map]. rewrite (IH Hu). f_equal.
-    apply uri_char_ok_facts in Hc. destruct Hc as [_ [_ [_ [_ [H9 [H10 H13]]]]]].
-    unfold att_lit. apply N.eqb_neq in H9, H10, H13. rewrite H9, H10, H13. reflexivity.
-  - rewrite forallb_forall in *. intros c Hc. apply H in Hc. apply uri_char_ok_facts in Hc.
-    destruct Hc as [H0 [H1 [H2 _]]]. apply N.eqb_neq in H1, H2. rewrite H0, H1, H2. reflexivity.
+  unfold uri_ok. destruct u as [|c u]; [discriminate|]. intros H. apply andb_true_iff in H as [H _].
+  rewrite forallb_forall in *. intros x Hx. specialize (H x Hx). unfold uri_char_ok in H.
+  apply andb_true_iff in H as [H _]. exact H.
 Qed.
 
 Lemma legal_decl_fine p u : legal_entry p u -> decl_fine (p, u).
 Proof.
   intros H. unfold decl_fine. cbn [fst snd].
-  assert (Hval : attr_inner_value c_quot u = Some u).
-  { destruct p as [p|]; cbn in H.
-    - destruct H as [_ [_ [Hu _]]]. unfold uri_ok in Hu. destruct u; [discriminate|].
-      apply andb_true_iff in Hu as [Hu _]. apply uri_value_plain, Hu.
-    - destruct H as [->|[Hu _]]; [reflexivity|]. unfold uri_ok in Hu. destruct u; [discriminate|].
-      apply andb_true_iff in Hu as [Hu _]. apply uri_value_plain, Hu. }
+  assert (Hval : attr_inner_value c_quot (sax_escape_uri u) = Some u).
+  { apply uri_escape_value. destruct p as [p|]; cbn in H.
+    - destruct H as [_ [_ [Hu _]]]. apply uri_ok_chars, Hu.
+    - destruct H as [->|[Hu _]]; [reflexivity|apply uri_ok_chars, Hu]. }
   split; [exact Hval|]. destruct p as [p|]; cbn in H.
   - destruct H as [Hnc [Hnx [Hu Hxml]]]. split; [|intros E; inversion E; subst; discriminate].
     unfold decl_ok. rewrite Hnc. rewrite (str_eqb_neq _ _ Hnx). cbn [negb andb].
